@@ -383,6 +383,18 @@ func c13Gen(rt *rapid.T) c13Prog {
 		if c13Maybe(rt, 50) {
 			p.Ops = append(p.Ops, wOp{K: "pub", S: 1, T: "g0"}, wOp{K: "pub", S: 1, T: "g0"})
 		}
+		// well-formed requests in combinations a client rarely sends
+		if c13Maybe(rt, 20) && len(p.Sess) > 2 {
+			// both participants of the P2P topic unsubscribe while it stays loaded
+			p.Ops = append(p.Ops, wOp{K: "sub", S: 1, T: "p1"}, wOp{K: "sub", S: 2, T: "p0"}, wOp{K: "sub", S: 1, T: "p0"}, wOp{K: "sub", S: 2, T: "p1"},
+				wOp{K: "leave", S: 1, T: "p1", F: true}, wOp{K: "leave", S: 1, T: "p0", F: true}, wOp{K: "leave", S: 2, T: "p0", F: true}, wOp{K: "leave", S: 2, T: "p1", F: true})
+		}
+		if c13Maybe(rt, 20) {
+			p.Ops = append(p.Ops, wOp{K: "leave", S: 1, T: "me"}, wOp{K: "sub", S: 1, T: "me", B: c13Pick(rt, []string{"cred", "desc sub cred tags", "data del"}, "getwhat")})
+		}
+		if c13Maybe(rt, 20) {
+			p.Ops = append(p.Ops, wOp{K: "leave", S: 1, T: "me", F: true}, wOp{K: "leave", S: 1, T: "g0"}, wOp{K: "sub", S: 1, T: "g0"}, wOp{K: "get", S: 1, T: "g0", A: "desc"})
+		}
 	}
 	n := gInt(rt, 1, 12, "nops")
 	for i := 0; i < n; i++ {
